@@ -153,7 +153,8 @@ theorem variant_path_not_listProp {path : List Text} {v : Text} (hv : v ∈ path
 
 /-! ### the builder -/
 
-/-- Builder half, as far as it is proved.  For every builder call sequence whose tree passes the checker `derive`
+/-- Builder half, first part (the second part, parsing the text back, is `builder_eq_parsed` below).  For every
+builder call sequence whose tree passes the checker `derive`
 ("the names used are statements/blocks of the grammar in that place" — decidable, evaluated for every generated call
 sequence by the driver): the tree is the tree of a well-formed derivation `d` from the start symbol, the
 Reconstructor prints exactly the sentence of `d` (so the profile's own text is a sentence with that derivation), and
@@ -172,15 +173,64 @@ theorem builder_eq_parsed_partial (calls : Calls) (t : Tree) (d : Deriv)
   subst h3
   exact ⟨h1, h2, rfl, C10.print_eq_source C10.gen C10.gen_printWF d h1, asDict_eq_spec_gen d h1 h2 htok⟩
 
-/-- NOT PROVED: the design's full statement also says that the text of a builder-made profile PARSES back to the
-builder's tree.  Inside the model that is C10's open `unique_readability_full` (a sentence has one tree); here it is
-covered by the correspondence only (`reparse=T` of the streams `both` and `build`: real Lark and the model parser on
-every generated call sequence).  The statement is kept at full strength; nothing depends on it. -/
+/-- Parse-back direction of the builder half (closed by C10's `parse_complete`): for every builder call sequence
+whose tree passes `derive`, whose tokens are lexable and `tokOK` (every named token's text matches its terminal — for
+STRING tokens that is the quote `value_to_string` always writes, for the global option NAMES, which the builder does
+not check, it means "is a word of the terminal OPTION"), the profile's own text exists and `from_text` of it is the
+derivation `d` again, i.e. the builder's tree. -/
+theorem builder_eq_parsed (calls : Calls) (t : Tree) (d : Deriv) (idc : Nat → Bool) (hc : C10.IdcOK idc)
+    (_hb : buildProfile ProfileApi.classes C10.gen calls = .ok t) (hd : derive C10.gen t = some d)
+    (hok : ∀ tk ∈ d.yield, C10.tokOK C10.gen tk = true)
+    (hl : ∀ tk ∈ d.yield, C10.lexableTok C10.gen.words (C10.gen.tokText tk) = true) :
+    ∃ text, C10.asText C10.gen idc t = some text ∧ C10.parseText C10.gen text = .ok d ∧ C10.toTree d = t := by
+  obtain ⟨h1, h2, h3⟩ := derive_sound C10.gen hd
+  subst h3
+  obtain ⟨text, e1, e2⟩ := C10.text_of_derivation_parses_gen idc hc d h1 h2 hok hl
+  exact ⟨text, e1, e2, rfl⟩
+
+/-- The statement as the design first had it — WITHOUT `tokOK`.  It is FALSE (`builder_eq_parsed_full_false`): the
+builder accepts any global option name.  `builder_eq_parsed` is the corrected statement. -/
 def builder_eq_parsed_full : Prop :=
   ∀ (calls : Calls) (t : Tree) (d : Deriv) (idc : Nat → Bool), C10.IdcOK idc →
     buildProfile ProfileApi.classes C10.gen calls = .ok t → derive C10.gen t = some d →
     (∀ tk ∈ d.yield, C10.lexableTok C10.gen.words (C10.gen.tokText tk) = true) →
     ∃ text d', C10.asText C10.gen idc t = some text ∧ C10.parseText C10.gen text = .ok d' ∧ C10.toTree d' = t
+
+/-- `C2Profile().set_option("stage", "x")`: the option name is a keyword of the grammar, not a word of OPTION -/
+def optionNameCex : Calls := .setOption [115, 116, 97, 103, 101] (.str [120]) .done
+
+def idcAscii : Nat → Bool := fun c => c == 95 || (48 ≤ c && c ≤ 57) || (65 ≤ c && c ≤ 90) || (97 ≤ c && c ≤ 122)
+
+/-- the tree of `optionNameCex` passes `derive`, its tokens are lexable, its text is `set stage "x";` — and that text
+does not parse (the real library answers `UnexpectedToken … Expected one of: OPTION`) -/
+def optionNameCexHolds : Bool :=
+  match buildProfile ProfileApi.classes C10.gen optionNameCex with
+  | .ok t =>
+    match derive C10.gen t with
+    | some d =>
+      d.yield.all (fun tk => C10.lexableTok C10.gen.words (C10.gen.tokText tk)) &&
+        (match C10.asText C10.gen idcAscii t with
+          | some text => C10.parseText C10.gen text == .fail
+          | none => false)
+    | none => false
+  | .error _ => false
+
+theorem builder_eq_parsed_full_false : ¬ builder_eq_parsed_full := by
+  intro h
+  have hc : optionNameCexHolds = true := by decide +kernel
+  unfold optionNameCexHolds at hc
+  split at hc
+  · rename_i t hb
+    split at hc
+    · rename_i d hd
+      simp only [Bool.and_eq_true, List.all_eq_true] at hc
+      obtain ⟨hl, hp⟩ := hc
+      obtain ⟨text, d', e1, e2, _⟩ := h optionNameCex t d idcAscii ⟨by decide, by decide, by decide⟩ hb hd hl
+      rw [e1] at hp
+      simp only [e2] at hp
+      cases hp
+    · cases hc
+  · cases hc
 
 /-- bytes handed to a builder call that ends up in a list property are reported as the same bytes
 (C12's `literal_roundtrip` through `value_to_string` and `string_token_to_bytes`) -/
@@ -247,7 +297,7 @@ def exampleHolds : Bool :=
 
 example : exampleHolds = true := by decide +kernel
 
-/-- a builder call sequence that satisfies the hypotheses of `builder_eq_parsed_partial`:
+/-- a builder call sequence that satisfies the hypotheses of `builder_eq_parsed_partial` and `builder_eq_parsed`:
 `C2Profile(sleeptime="5")` then `set_config_block("stage", StageBlock(name="x"))` -/
 def exampleCalls : Calls :=
   .kwVal [115, 108, 101, 101, 112, 116, 105, 109, 101] (.str [53])
@@ -255,7 +305,10 @@ def exampleCalls : Calls :=
       (.cls ((ProfileApi.classes.map (·.pyName)).idxOf "StageBlock") (.kwVal [110, 97, 109, 101] (.bytes [120, 0]) .done)) .done)
 
 example : (match buildProfile ProfileApi.classes C10.gen exampleCalls with
-    | .ok t => (derive C10.gen t).isSome && tokensOK C10.gen t && t.kids != .nil
+    | .ok t => (derive C10.gen t).isSome && tokensOK C10.gen t && t.kids != .nil &&
+        (match derive C10.gen t with
+          | some d => d.yield.all (fun tk => C10.tokOK C10.gen tk && C10.lexableTok C10.gen.words (C10.gen.tokText tk))
+          | none => false)
     | .error _ => false) = true := by decide +kernel
 
 end C11
